@@ -36,7 +36,7 @@ TRUSTED = ['Lean 4.33 kernel; axioms of every C10_* theorem ⊆ {propext, Classi
 ASSUMPTIONS = ['strengths are dyadic rationals, so float sums/products in tenpy are exact and comparable to Rat arithmetic',
                'operator names are opaque at the formal level (equal formal sums ⇒ equal operators, not conversely)']
 
-N_PROCS = min(16, os.cpu_count() or 1)
+N_PROCS = min(12, os.cpu_count() or 1)
 
 
 def nontrivial(case):
@@ -95,10 +95,25 @@ def shrink(case, sig):
     return cur
 
 
+KNOWN_SIGS = {k['signature'] for k in core.load_known_findings() if k.get('property') == PROP}
+
+
+def _mem_limit(on):
+    """soft address-space limit of this worker: a runaway allocation raises MemoryError here instead of
+    taking the machine down"""
+    try:
+        import resource
+        soft, hard = resource.getrlimit(resource.RLIMIT_AS)
+        resource.setrlimit(resource.RLIMIT_AS, ((6 << 30) if on else hard, hard))
+    except Exception:  # noqa: BLE001
+        pass
+
+
 def work_chunk(args):
     """child process: real side, one driver call for the chunk, comparison"""
     cases, use_model = args
     warnings.simplefilter('ignore')
+    _mem_limit(True)
     out = []
     reals, reqs, idx = [], [], []
     for n, case in enumerate(cases):
@@ -122,10 +137,12 @@ def work_chunk(args):
             reqs.append(c10_check.lean_request(case, real))
     louts = [None] * len(reals)
     if use_model and reqs:
+        _mem_limit(False)   # the Lean runtime reserves a large address space
         try:
             louts = core.run_driver('C10', reqs)
         except core.DriverError as e:
             louts = [{'error': 'driver: ' + str(e)[:400]}] * len(reals)
+        _mem_limit(True)
     for n, real, lo in zip(idx, reals, louts):
         rec = out[n]
         try:
@@ -135,7 +152,7 @@ def work_chunk(args):
         rec['fails'], rec['facts'] = fails, facts
         seen = set()
         for k, f in enumerate(list(fails)):
-            if f[0] == 'property' and f[1] not in seen and len(seen) < 2:
+            if f[0] == 'property' and f[1] not in seen and len(seen) < 2 and f[1] not in KNOWN_SIGS:
                 seen.add(f[1])
                 try:
                     small = shrink(rec['case'], f[1])
@@ -154,8 +171,9 @@ def run_cases(ctx, cases, use_model=True, res=None):
     if nproc == 1:
         outs = [work_chunk((chunks[0], use_model))]
     else:
-        with mp.get_context('fork').Pool(nproc) as pool:
-            outs = pool.map(work_chunk, [(c, use_model) for c in chunks])
+        from concurrent.futures import ProcessPoolExecutor
+        with ProcessPoolExecutor(nproc, mp_context=mp.get_context('fork')) as pool:
+            outs = list(pool.map(work_chunk, [(c, use_model) for c in chunks], timeout=max(600, ctx.budget_s)))
     for chunk in outs:
         for rec in chunk:
             case = rec['case']
